@@ -96,21 +96,6 @@ def padded_string_ok(s: str) -> bool:
     return (got == _core(s)) & isinstance(got, str)
 
 
-def ascii_complex_ok(swap: bool) -> bool:
-    """
-    post: _
-    """
-    class Obj:
-        pass
-
-    o = Obj()
-    re_, im = Tok("float", "first half"), Tok("float", "second half")
-    o.real, o.imaginary = (im, re_) if swap else (re_, im)
-    got = D.AsciiComplex._decode(None, o, None, None)
-    # value = (first field) + 1j * (second field), nothing else
-    return got == Tok("add", (o.real, Tok("mul", (1j, o.imaginary))))
-
-
 def ascii_blank_ok(n: int, kind: int) -> bool:
     """
     pre: 0 <= n <= 22 and 0 <= kind <= 2
